@@ -870,18 +870,6 @@ def _h_type(ex, st, args, kwargs, node):
     return FuncV('class', args[0])
 
 
-def _install_type():
-    from pyvc import lib
-
-    def h(ex, st, args, kwargs, node):
-        lib.USED.add('builtins.type')
-        return _h_type(ex, st, args, kwargs, node)
-    lib.HANDLERS['builtins.type'] = h
-
-
-_install_type()
-
-
 def _bm_post(c, v0, v1, r):
     """the composite class lists the mixins as bases in the order they were written, then the base class (so the first
     mixin named comes first in the method resolution order), and is named after them"""
@@ -907,5 +895,6 @@ def _bm_native(c, p):
 
 _BM_CASES = [dict(mixins=m) for m in ((), ('MixA',), ('MixB', 'MixA'), ('MixA', 'MixB'), ('Zeta', 'Alpha', 'Mid'), ('AVeryLongMixinName', 'B'))]
 BM = Unit('C15', 'taurex.mixin.core:build_new_mixed_class', _bm_params, post=_bm_post, cases=_BM_CASES, bounds=[{}], native=_bm_native,
+          abstract={'new:type': _h_type},
           gen=lambda rng: dict(rng.choice(_BM_CASES)), short='build_new_mixed_class',
           doc='mixin1+mixin2+base builds a class whose bases are the mixins in the order written, then the base')
